@@ -90,7 +90,14 @@ def exec_SCI(t):
     kw = {} if sg == 'n' else {'signed': sg == 's'}
     try:
         vals = [num(v, 'float') for v in vs]
-        x = Fxp(vals[0] if len(vals) == 1 else vals, scale=num(sc, 'float'), bias=num(bi, 'float'), **kw)
+        v_in = vals[0] if len(vals) == 1 else vals
+        if all(v.denominator == 1 for v in vs) and (len(vs) + int(vs[0])) % 2:
+            # integer values in integer-typed carriers (python int, NumPy integer scalar / array): what is sized is (v - b) / s, which need
+            # not be an integer
+            iv = [int(v) for v in vs]
+            k_ = (len(vs) + int(vs[-1])) % 3
+            v_in = (iv[0] if k_ == 0 else np.int64(iv[0]) if k_ == 1 else np.array(iv[0])) if len(iv) == 1 else (np.array(iv) if k_ else np.array(iv, dtype=np.int32))
+        x = Fxp(v_in, scale=num(sc, 'float'), bias=num(bi, 'float'), **kw)
         return fmt_of(x).split() + [tok_list([str(c) for c in codes_of(x)])]
     except Exception as e:
         return [exc_token(e)]
